@@ -184,8 +184,8 @@ Proof.
   unfold pkgo_cands. destruct (n_kind n); try cone.
   - destruct (a_obj (n_attrs n)) as [o|]; [|cone]. destruct (o_pkg o) as [p|]; [|cone].
     destruct (String.eqb p cur); [cone|apply pkgo_obj_cand_codes].
-  - destruct (a_obj (n_attrs n)) as [o|]; [|cone]. destruct (o_pkg o) as [p|]; [|cone].
-    destruct (String.eqb p cur); [apply pkgo_obj_cand_codes|cone].
+  - destruct (a_flag (n_attrs n)); [cone|]. destruct (a_obj (n_attrs n)) as [o|]; [|cone]. destruct (o_pkg o) as [p|]; [|cone].
+    apply pkgo_obj_cand_codes.
 Qed.
 
 Theorem pkgo_diags_codes sup files : codes_in PKGO_CODES (pkgo_diags fs cur cur_name sup files).
